@@ -197,3 +197,118 @@ func trunMalformed(r *hx.Rng, n int, next func() string) {
 		emit("V", next(), b01(has(0))+b01(has(1))+b01(has(2))+b01(has(3))+b01(has(4))+b01(has(5)), hx.Hex(body), obs)
 	}
 }
+
+// trafTimingCases (kind N): a traf with SEVERAL truns written the way an external packager may (every trun its own
+// choice of per-sample fields, tfhd / trex defaults, first-sample-flags, empty truns, decode times near 2^64):
+// what Fragment.GetFullSamples reports with the file's trex and with nil.
+func (e *env) trafTimingCases(r *hx.Rng, n int, next func() string) {
+	for i := 0; i < n; i++ {
+		initF, err := mp4.DecodeFile(bytes.NewReader(e.aacInit))
+		must(err)
+		trex := initF.Init.Moov.Mvex.Trex
+		trex.DefaultSampleDuration = uint32(r.Pick(0, 1024, 0xffffffff))
+		trex.DefaultSampleSize = uint32(r.Pick(0, 7, 17))
+		trex.DefaultSampleFlags = uint32(r.Pick(0, 0x01010000))
+		tfhd := mp4.CreateTfhd(trex.TrackID)
+		if r.Bool() {
+			tfhd.Flags |= 0x08
+			tfhd.DefaultSampleDuration = uint32(r.Pick(1001, 1, 0xfffffff0))
+		}
+		if r.Bool() {
+			tfhd.Flags |= 0x10
+			tfhd.DefaultSampleSize = uint32(r.Pick(5, 9, 0))
+		}
+		if r.Bool() {
+			tfhd.Flags |= 0x20
+			tfhd.DefaultSampleFlags = 0x02000000
+		}
+		base := []uint64{0, 90000, 1 << 40, ^uint64(0) - 3000, ^uint64(0)}[r.Intn(5)]
+		traf := &mp4.TrafBox{}
+		_ = traf.AddChild(tfhd)
+		_ = traf.AddChild(mp4.CreateTfdt(base))
+		m := r.Pick(1, 2, 2, 3, 4)
+		at := uint64(0)
+		for j := 0; j < m; j++ {
+			tr := mp4.CreateTrun(0)
+			tr.Flags = 0x01
+			for _, fl := range []uint32{0x100, 0x200, 0x400, 0x800} {
+				if r.Bool() {
+					tr.Flags |= fl
+				}
+			}
+			if tr.Flags&0x400 == 0 && r.Bool() {
+				tr.SetFirstSampleFlags(uint32(r.Pick(0x02000000, 0, 0x01010000)))
+			}
+			ns := r.Pick(0, 1, 2, 3, 5)
+			for k := 0; k < ns; k++ {
+				tr.AddSample(mp4.Sample{Flags: uint32(r.Pick(0x01010000, 0x02000000, 0, 0xffffffff)), Dur: uint32(r.Pick(1024, 1, 0, 0xffffffff, r.Intn(100000))),
+					Size: uint32(r.Intn(21)), CompositionTimeOffset: int32(r.Pick(0, 500, -1000, 0x7fffffff))})
+			}
+			_ = traf.AddChild(tr)
+		}
+		moof := &mp4.MoofBox{}
+		_ = moof.AddChild(mp4.CreateMfhd(3))
+		_ = moof.AddChild(traf)
+		for _, tr := range traf.Truns {
+			tr.DataOffset = int32(moof.Size() + 8 + at)
+			for _, s := range tr.Samples {
+				sz := uint64(s.Size)
+				if !tr.HasSampleSize() {
+					sz = uint64(trex.DefaultSampleSize)
+					if tfhd.HasDefaultSampleSize() {
+						sz = uint64(tfhd.DefaultSampleSize)
+					}
+				}
+				at += sz
+			}
+		}
+		mdat := &mp4.MdatBox{}
+		mdat.AddSampleData(make([]byte, at+64))
+		var buf bytes.Buffer
+		must(initF.Init.Encode(&buf))
+		must(moof.Encode(&buf))
+		must(mdat.Encode(&buf))
+		decode := func() (*mp4.File, *mp4.Fragment) {
+			f, err := mp4.DecodeFile(bytes.NewReader(buf.Bytes()))
+			must(err)
+			return f, f.Segments[0].Fragments[0]
+		}
+		_, fr := decode()
+		dt := fr.Moof.Traf
+		var ts []string
+		for _, tr := range dt.Truns {
+			ff, _ := tr.FirstSampleFlags()
+			ts = append(ts, trunFlagBits(tr)+":"+strconv.FormatUint(uint64(uint32(tr.DataOffset)), 10)+":"+strconv.FormatUint(uint64(ff), 10)+":"+samplesString(tr.Samples))
+		}
+		var obs []string
+		for _, useTrex := range []bool{true, false} {
+			f2, fr2 := decode()
+			var tx *mp4.TrexBox
+			if useTrex {
+				tx = f2.Init.Moov.Mvex.Trex
+			}
+			var fss []mp4.FullSample
+			var err error
+			if p := hx.Try(func() { fss, err = fr2.GetFullSamples(tx) }); p != "" || err != nil {
+				obs = append(obs, classOf(p, err))
+				continue
+			}
+			obs = append(obs, "ok:"+metaStringHex(fss))
+		}
+		emit("N", next(), optU32(dt.Tfhd.HasDefaultSampleDuration(), dt.Tfhd.DefaultSampleDuration)+"|"+
+			optU32(dt.Tfhd.HasDefaultSampleSize(), dt.Tfhd.DefaultSampleSize)+"|"+optU32(dt.Tfhd.HasDefaultSampleFlags(), dt.Tfhd.DefaultSampleFlags),
+			fmt.Sprintf("%d/%d/%d", trex.DefaultSampleDuration, trex.DefaultSampleSize, trex.DefaultSampleFlags),
+			strconv.FormatUint(dt.Tfdt.BaseMediaDecodeTime(), 16), strings.Join(ts, "#"), strings.Join(obs, "|"))
+	}
+}
+
+func metaStringHex(fss []mp4.FullSample) string {
+	if len(fss) == 0 {
+		return "-"
+	}
+	p := make([]string, len(fss))
+	for i, s := range fss {
+		p[i] = fmt.Sprintf("%d/%d/%d/%d@%x", s.Flags, s.Dur, s.Size, uint32(s.CompositionTimeOffset), s.DecodeTime)
+	}
+	return strings.Join(p, ";")
+}
